@@ -122,8 +122,16 @@ def grammar_rule(rep, prog, cfg):
         return None
     escaper = None
     b = ft[0]
-    sh, problems = render_shapes(prog, b)
     where = b.loc(b.span)
+    # what a node writes may sit in private helpers of the module (`render_conjunction(inner, buf)`, `parenthesized(buf, |buf| ..)`):
+    # spliced in (A12, the closure handed to a helper is spliced where the helper calls it); the renderer itself (recursion) and
+    # value-returning helpers (the escaper: it is a slot of the template) stay calls
+    from ..inline import inlined, module_private_helpers
+    base_want = module_private_helpers(b, exclude=(norm(b.name),))
+    b_in = inlined(prog, b, lambda cb: base_want(cb) and cb.local_ty(0) == "()" and norm(cb.name) != norm(b.name), depth=3)
+    if b_in.raw.get("inlined"):
+        b = b_in
+    sh, problems = render_shapes(prog, b)
     if problems:
         rep.fail(rule, cfg + "/analysable", where, "FilterType::render is not analysable: %s (failing closed)" % problems[:2])
         return None
@@ -160,17 +168,24 @@ def grammar_rule(rep, prog, cfg):
               "escaped value in these slots; found %s" % [show(f) for f in tag_paths], detail=detail)
     ok_not = len(not_paths) == 1 and [x[0] for x in not_paths[0]] == ["lit", "call", "lit"] and not_paths[0][2] == ("lit", b")") and not_paths[0][1][1].startswith("render")
     rep.check(ok_not, rule, cfg + "/negation", where, "a negation must be written as `(!` EXPR `)`; found %s" % [show(f) for f in not_paths])
-    want_and = [[("lit", b"("), ("call", "render"), ("lit", b")")], [("lit", b"( AND "), ("call", "render"), ("lit", b")")]]
+    R = ("call", "render")
     norm_and = []
     for f in and_paths:
-        norm_and.append([x if x[0] != "call" else ("call", "render") for x in f])
-    have_first = [("lit", b"("), ("call", "render"), ("lit", b")")] in norm_and
-    have_sep = [("lit", b"( AND "), ("call", "render"), ("lit", b")")] in norm_and
-    extra = [show(f) for f in norm_and if f not in want_and and f != [("lit", b"()")]]
-    rep.check(have_first and have_sep and not extra, rule, cfg + "/conjunction", where,
+        norm_and.append([x if x[0] != "call" else R for x in f])
+    P_ONE = [("lit", b"("), R, ("lit", b")")]
+    P_SEP = [("lit", b"( AND "), R, ("lit", b")")]                       # a later iteration of a loop that separates by itself
+    P_HEAD = [("lit", b"("), R, ("lit", b" AND "), R, ("lit", b")")]      # head rendered bare, every following one preceded by AND
+    P_NONE = [("lit", b"()")]
+    have = {k: (v in norm_and) for k, v in (("one", P_ONE), ("sep", P_SEP), ("head", P_HEAD))}
+    extra = [show(f) for f in norm_and if f not in (P_ONE, P_SEP, P_HEAD, P_NONE)]
+    form = "loop" if have["one"] and have["sep"] and not have["head"] else ("head-rest" if have["one"] and have["head"] and not have["sep"] else None)
+    rep.check(form is not None and not extra, rule, cfg + "/conjunction", where,
               "a conjunction must be written as `(` EXPR { ` AND ` EXPR } `)`; found loop paths %s" % [show(f) for f in norm_and])
-    # separator on every iteration but the first: decided on the flag that guards the separator write
-    sep_rule(rep, prog, cfg, b)
+    # separator on every iteration but the first
+    if form == "head-rest":
+        head_rest_rule(rep, prog, cfg, b)
+    else:
+        sep_rule(rep, prog, cfg, b)
     # the whole expression is one quoted request parameter
     sh2, problems2 = render_shapes(prog, fr[0])
     flats2 = [flatten(list(p)) for p in sh2]
@@ -193,20 +208,58 @@ def grammar_rule(rep, prog, cfg):
     return escaper
 
 
-def sep_rule(rep, prog, cfg, b):
-    """` AND ` is written on every iteration except the first: the write is guarded by a flag that is true on entry to the loop,
-    tested on its false side, and cleared on the other side (or an equivalent index test is not attempted: fail closed)."""
-    rule = "C11.grammar"
-    from ..cfg import Cfg
+def _sep_writes(prog, b):
+    from ..common import const_value_of
     seps = []
     for bb, t in b.calls():
         if any("BufMut::put_slice" in n or "extend_from_slice" in n for n in callee_names(t)) and len(t["args"]) == 2:
-            from ..common import const_value_of
             v = const_value_of(prog, b, t["args"][1])
             if isinstance(v, bytes):
                 v = v.decode("latin-1")
             if v == " AND ":
                 seps.append(bb)
+    return seps
+
+
+def head_rest_rule(rep, prog, cfg, b):
+    """head-then-rest form: the first condition is rendered before the loop, the loop writes ` AND ` and then the condition on every
+    iteration, unconditionally"""
+    rule = "C11.grammar"
+    from ..cfg import Cfg
+    g = Cfg(b)
+    seps = _sep_writes(prog, b)
+    renders = [bb for bb, t in b.calls() if any(n.endswith("filter::FilterType::render") for n in callee_names(t))]
+    ok = len(seps) == 1
+    why = "expected exactly one write of ` AND `"
+    if ok:
+        sep = seps[0]
+        loops = [l for l in g.loops if sep in l]
+        ok = len(loops) >= 1
+        why = "the separator is not written in a loop"
+        if ok:
+            loop = min(loops, key=len)
+            inside = [r for r in renders if r in loop]
+            before = [r for r in renders if r not in loop and any(g.dom(r, x) for x in loop)]
+            # no boolean test between the loop's item and the separator: the separator block is control dependent only on the
+            # iterator's Some / None switch, i.e. every path through the loop body passes it
+            body_entry_paths_skip = False
+            from ..cfg import reach
+            for r in inside:
+                # the render inside the loop is reached only through the separator (within one iteration)
+                preds_free = reach(g.succs, [x for x in loop if b.blocks[x]["t"]["k"] == "call" and any(n.endswith("Iterator::next") for n in callee_names(b.blocks[x]["t"]))], avoid={sep})
+                if r in preds_free:
+                    body_entry_paths_skip = True
+            ok = len(inside) == 1 and len(before) == 1 and not body_entry_paths_skip
+            why = "expected the head rendered once before the loop and, in the loop, the separator on every path to the one render (renders before=%d, in loop=%d, render reachable without the separator=%s)" % (len(before), len(inside), body_entry_paths_skip)
+    rep.check(ok, rule, cfg + "/separator placement", b.loc(b.span), "` AND ` must be written before every condition except the first: " + why)
+
+
+def sep_rule(rep, prog, cfg, b):
+    """` AND ` is written on every iteration except the first: the write is guarded by a flag that is true on entry to the loop,
+    tested on its false side, and cleared on the other side (or an equivalent index test is not attempted: fail closed)."""
+    rule = "C11.grammar"
+    from ..cfg import Cfg
+    seps = _sep_writes(prog, b)
     if len(seps) != 1:
         rep.fail(rule, cfg + "/separator placement", b.loc(b.span), "expected exactly one write of ` AND ` in the conjunction loop, found %d (failing closed)" % len(seps))
         return
@@ -224,6 +277,27 @@ def sep_rule(rep, prog, cfg, b):
         rep.fail(rule, cfg + "/separator placement", b.loc(b.span), "the write of ` AND ` is not guarded by a boolean test (failing closed)")
         return
     gbb, gl, gt = guard
+    # enumerate form: the guard compares the index `enumerate()` yields with zero; the separator is on the non-zero side
+    from ..common import switch_atom
+    at = switch_atom(b, gbb)
+    if at is not None and at.get("kind") == "cmp":
+        from ..common import op_int
+        k, x, op = op_int(b, at["rhs"]), at["lhs"], at["op"]
+        if k is None:
+            k, x = op_int(b, at["lhs"]), at["rhs"]
+            op = {"Lt": "Gt", "Gt": "Lt", "Le": "Ge", "Ge": "Le"}.get(op, op)
+        xl = op_local(x)
+        if k in (0, 1) and xl is not None:
+            leaves, _ = Flow(b).sources([xl], through_call=None, follow_mut=False)
+            from_enum = any(lf[0] == "call" and any("Enumerate" in n and n.endswith("::next") for n in callee_names(b.blocks[lf[1]]["t"])) for lf in leaves)
+            nonzero_t = ({"Gt": at["true"], "Ne": at["true"], "Eq": at["false"], "Le": at["false"]} if k == 0 else {"Ge": at["true"], "Lt": at["false"]}).get(op)
+            if from_enum and nonzero_t is not None:
+                zero_t = at["false"] if nonzero_t == at["true"] else at["true"]
+                arm_nz = {y for y in b.reachable() if g.dom(nonzero_t, y)}
+                arm_z = {y for y in b.reachable() if g.dom(zero_t, y)}
+                rep.check(sep in arm_nz and sep not in arm_z, rule, cfg + "/separator placement", b.loc(b.span),
+                          "` AND ` must be written on every iteration except the first: the index test puts it on the index-zero side")
+                return
     # follow copies back to the flag variable
     flag = gl
     for _ in range(4):
@@ -428,38 +502,49 @@ def builders_rule(rep, prog, cfg):
     if len(bs) != 1:
         rep.fail(rule + ".anchor", cfg + "/and", "filter.rs", "Filter::and not found (failing closed)")
     else:
-        b = bs[0]
-        from ..cfg import Cfg
+        b0 = bs[0]
+        # the operands may be taken apart by a private helper (`into_conditions(self) -> Vec<FilterType>`): spliced in (A12)
+        from ..inline import inlined, module_private_helpers
+        b = inlined(prog, b0, module_private_helpers(b0, exclude=(norm(b0.name),)), depth=3)
+        if not b.raw.get("inlined"):
+            b = b0
+        from ..cfg import Cfg, reach
         g = Cfg(b)
         fl = Flow(b)
         dropping = sorted({n for _, t in b.calls() for n in callee_names(t) if any(n.endswith(d) for d in DROPPING)})
-        pushes = []
+        APPEND = ("::push", "::extend", "::append", "::extend_from_slice", "::push_back")
+        merges, reverse, self_after = [], [], []
+        appends = []
         for bb, t in b.calls():
-            if any(n.endswith("Vec<T, A>>::push") or n.endswith("vec::Vec::push") or n.endswith("::push") and "Vec" in n for n in callee_names(t)) and len(t["args"]) == 2:
-                l = op_local(t["args"][1])
-                params = params_of(fl, l) if l is not None else []
-                rl = op_local(t["args"][0])
-                pushes.append((bb, params, params_of(fl, rl) if rl is not None else []))
-        self_p = [bb for bb, ps, _ in pushes if ps == [1]]
-        other_p = [bb for bb, ps, _ in pushes if ps == [2]]
-        mixed = [bb for bb, ps, _ in pushes if ps not in ([1], [2])]
-        onto_self = all(1 in rp for bb, ps, rp in pushes if ps == [2])
-        order_ok = all(sp not in g.reach([op]) for sp in self_p for op in other_p)
-        # the loop over other's conditions iterates forward over the whole vector
-        iters = [n for _, t in b.calls() for n in callee_names(t) if n.endswith("IntoIterator::into_iter") or n.endswith("Iterator::next")]
-        # result: And(vec) where vec also carries self's inner vector when self was already a conjunction (moved, not rebuilt)
-        ands = [s for _, _, s in b.stmts() if s["k"] == "assign" and s["rv"]["k"] == "agg" and s["rv"].get("variant") == "And"]
+            if not any(n.endswith(a) and ("Vec" in n or "Extend" in n) for n in callee_names(t) for a in APPEND) or len(t["args"]) != 2:
+                continue
+            rl, al = op_local(t["args"][0]), op_local(t["args"][1])
+            rp = params_of(fl, rl) if rl is not None else []
+            ap = params_of(fl, al) if al is not None else []
+            appends.append((bb, rp, ap))
+        # a merge puts something of `other` (and nothing of `self`) onto a vector that holds what came from `self`
+        merges = [bb for bb, rp, ap in appends if ap == [2] and 1 in rp]
+        reverse = [bb for bb, rp, ap in appends if ap == [1] and rp == [2]]
+        order_ok = all(bb1 not in g.reach([m]) for bb1, rp, ap in appends if ap == [1] for m in merges)
+        # every way to the result passes a merge (a loop that contains one counts as a whole: it walks other's conditions)
+        avoid = set(merges)
+        for loop in g.loops:
+            if any(m in loop for m in merges):
+                avoid |= set(loop)
+        ands = [(bb, s) for bb, _, s in b.stmts() if s["k"] == "assign" and s["rv"]["k"] == "agg" and s["rv"].get("variant") == "And"]
+        free = reach(g.succs, [0], avoid=avoid) if 0 not in avoid else set()
+        skipped = [bb for bb, _ in ands if bb in free]
         res_ok = False
-        for s in ands:
+        for bb, s in ands:
             l = op_local(s["rv"]["ops"][0]) if s["rv"]["ops"] else None
-            if l is not None and 1 in params_of(fl, l):
+            ps = params_of(fl, l) if l is not None else []
+            if 1 in ps and 2 in ps:
                 res_ok = True
-        ok = not dropping and not mixed and onto_self and len(other_p) >= 2 and order_ok and res_ok and len(iters) >= 2
-        rep.check(ok, rule, cfg + "/and keeps every condition in order", b.loc(b.span),
-                  "Filter::and must put every condition of `self`, then every condition of `other`, into the conjunction: pushes from self=%d, from other=%d (need >= 2: "
-                  "the loop over a nested conjunction and the single condition), unattributed=%d, self-after-other=%s, dropping / reordering calls=%s, result built from self's vector=%s, "
-                  "other's conditions appended to the vector holding self's=%s"
-                  % (len(self_p), len(other_p), len(mixed), not order_ok, dropping, res_ok, onto_self))
+        ok = not dropping and bool(merges) and not reverse and order_ok and not skipped and res_ok and len(ands) >= 1
+        rep.check(ok, rule, cfg + "/and keeps every condition in order", b0.loc(b0.span),
+                  "Filter::and must put every condition of `self`, then every condition of `other`, into the conjunction: appends of other's conditions onto self's vector=%d, "
+                  "of self's onto other's=%d, self appended after other=%s, dropping / reordering calls=%s, a path to the result without appending other's conditions=%s, "
+                  "result built from both operands=%s" % (len(merges), len(reverse), not order_ok, dropping, bool(skipped), res_ok))
     # negate(): Not(Box(self.0)) stored back, on every path
     bs = body_by_name(prog, "mpd_client::filter::Filter::negate")
     if len(bs) != 1:
